@@ -209,7 +209,7 @@ Proof.
            assert (Hr : (length r < m)%nat) by (simpl in Hsk; lia).
            assert (Hr2 : (length r < f)%nat) by (simpl in Hsf; lia).
            pose proof (IH r 0 cur' f ltac:(lia) Hr Hr2) as A. unfold refst in A. cbn [Z.eqb] in A.
-           destruct (decode_loop m all cur' (r, 0, 0)) as [[d2 e] rr].
+           unfold bytes in *. revert A. destruct (decode_loop m all cur' (r, 0, 0)) as [[d2 e] rr]. intros A.
            apply (agrees_prepend (firstn (Z.to_nat j) s)) in A. exact A.
         -- unfold after. cbn. repeat split; try discriminate; intros H0; discriminate.
     + (* still inside the chunk *)
@@ -218,7 +218,7 @@ Proof.
       unfold after. cbn [st_err st_rest fst snd Z.eqb negb].
       pose proof (IH (skipn (Z.to_nat j) s) (n - j) cur' f ltac:(lia) Hsk Hsf) as A.
       unfold refst in A. assert (n - j =? 0 = false) as E0 by lia. rewrite E0 in A.
-      destruct (decode_loop m all cur' (skipn (Z.to_nat j) s, n - j, 0)) as [[d2 e] rr].
+      unfold bytes in *. revert A. destruct (decode_loop m all cur' (skipn (Z.to_nat j) s, n - j, 0)) as [[d2 e] rr]. intros A.
       apply agrees_prepend. exact A.
 Qed.
 
@@ -249,3 +249,187 @@ Proof.
   unfold decode_all, ref_decode_all.
   apply (loop_agrees sizes (S (S (length wire))) wire 0 sizes (S (length wire))); lia.
 Qed.
+
+(* ---------- round trip: the reference decoder (hence the model decoder) inverts the encoder ---------- *)
+Lemma hex_digit_ok d : 0 <= d < 16 ->
+  is_hex (hex_digit d) = true /\ hex_digit_value (hex_digit d) = d /\ is_ws (hex_digit d) = false /\ hex_digit d <> 10.
+Proof.
+  intros H. unfold is_hex, hex_digit_value, is_ws, hex_digit.
+  destruct (d <? 10) eqn:E;
+    repeat match goal with |- context [if ?c then _ else _] => destruct c eqn:? end;
+    repeat split; lia.
+Qed.
+
+Lemma hex_digits_spec : forall fuel n acc, 0 <= n < 16 ^ Z.of_nat fuel -> (0 < fuel)%nat ->
+  exists ds, hex_digits fuel n acc = ds ++ acc /\ forallb is_hex ds = true /\
+             (1 <= length ds <= fuel)%nat /\
+             forall a, fold_left hex_step ds a = a * 16 ^ Z.of_nat (length ds) + n.
+Proof.
+  induction fuel as [|f IH]; intros n acc Hn Hf; [lia|].
+  cbn [hex_digits].
+  assert (Hm : 0 <= n mod 16 < 16) by (apply Z.mod_pos_bound; lia).
+  destruct (hex_digit_ok _ Hm) as [Hh [Hv _]].
+  destruct (n / 16 =? 0) eqn:Eq.
+  - apply Z.eqb_eq in Eq. exists [hex_digit (n mod 16)]. split; [reflexivity|]. split; [simpl; rewrite Hh; reflexivity|].
+    split; [simpl; lia|]. intros a. simpl. unfold hex_step. rewrite Hv.
+    pose proof (Z.div_mod n 16 ltac:(lia)). lia.
+  - apply Z.eqb_neq in Eq.
+    assert (Hq : 0 <= n / 16 < 16 ^ Z.of_nat f).
+    { split; [apply Z.div_pos; lia|]. apply Z.div_lt_upper_bound; [lia|].
+      rewrite Nat2Z.inj_succ, Z.pow_succ_r in Hn by lia. lia. }
+    assert (Hfpos : (0 < f)%nat).
+    { destruct f; [|lia]. simpl in Hq. assert (n / 16 = 0) by lia. contradiction. }
+    destruct (IH (n / 16) (hex_digit (n mod 16) :: acc) Hq Hfpos) as [ds [E [Hall [Hlen Hfold]]]].
+    exists (ds ++ [hex_digit (n mod 16)]). split; [rewrite E, <- app_assoc; reflexivity|].
+    split; [rewrite forallb_app, Hall; simpl; rewrite Hh; reflexivity|].
+    split; [rewrite app_length; simpl; lia|].
+    intros a. rewrite fold_left_app, Hfold. simpl. unfold hex_step at 1. rewrite Hv.
+    rewrite app_length. simpl length. rewrite Nat2Z.inj_add. simpl Z.of_nat. rewrite Z.pow_add_r by lia.
+    pose proof (Z.div_mod n 16 ltac:(lia)). change (16 ^ 1) with 16. lia.
+Qed.
+
+Lemma hex_of_spec n : 0 <= n < 2 ^ 64 ->
+  forallb is_hex (hex_of n) = true /\ (1 <= length (hex_of n) <= 16)%nat /\ hex_value (hex_of n) = n.
+Proof.
+  intros H. unfold hex_of.
+  destruct (hex_digits_spec 16 n [] ltac:(change (16 ^ Z.of_nat 16) with (2 ^ 64); lia) ltac:(lia)) as [ds [E [Hall [Hlen Hfold]]]].
+  rewrite E, app_nil_r. split; [exact Hall|]. split; [exact Hlen|].
+  rewrite hex_value_fold, Hfold. lia.
+Qed.
+
+Lemma is_hex_props b : is_hex b = true -> is_ws b = false /\ b <> 10 /\ b <> 13.
+Proof. unfold is_hex, is_ws. intros H. repeat split; lia. Qed.
+
+Lemma index_byte_app c : forall ds t, forallb (fun b => negb (b =? c)) ds = true ->
+  index_byte c (ds ++ c :: t) = Some (length ds).
+Proof.
+  induction ds as [|x ds IH]; intros t H; simpl.
+  - rewrite Z.eqb_refl. reflexivity.
+  - simpl in H. apply andb_true_iff in H. destruct H as [Hx Hr].
+    destruct (x =? c); [discriminate|]. rewrite IH by exact Hr. reflexivity.
+Qed.
+
+Lemma firstn_app_exact {A} (l t : list A) : firstn (length l) (l ++ t) = l.
+Proof. rewrite firstn_app, Nat.sub_diag, firstn_all. simpl. apply app_nil_r. Qed.
+Lemma skipn_app_exact {A} (l t : list A) : skipn (length l) (l ++ t) = t.
+Proof. rewrite skipn_app, Nat.sub_diag, skipn_all. reflexivity. Qed.
+
+Lemma parse_size_line_hex n rest : 0 <= n < 2 ^ 64 ->
+  parse_size_line (hex_of n ++ [13; 10] ++ rest) = Some (n, rest).
+Proof.
+  intros Hn. destruct (hex_of_spec n Hn) as [Hall [Hlen Hval]].
+  set (ds := hex_of n) in *. unfold parse_size_line.
+  assert (Hno : forallb (fun b => negb (b =? 10)) (ds ++ [13]) = true).
+  { rewrite forallb_app. simpl. rewrite andb_true_r. rewrite forallb_forall in *. intros b Hb.
+    destruct (is_hex_props b (Hall b Hb)) as [_ [H10 _]]. lia. }
+  replace (ds ++ [13; 10] ++ rest) with ((ds ++ [13]) ++ 10 :: rest) by (rewrite <- app_assoc; reflexivity).
+  rewrite (index_byte_app 10 _ _ Hno).
+  assert (Hl : (max_line <=? Z.of_nat (S (length (ds ++ [13])))) = false).
+  { rewrite app_length. simpl. unfold max_line. lia. }
+  rewrite Hl.
+  replace (S (length (ds ++ [13]))) with (length ((ds ++ [13]) ++ [10])) by (rewrite !app_length; simpl; lia).
+  replace ((ds ++ [13]) ++ 10 :: rest) with (((ds ++ [13]) ++ [10]) ++ rest) by (rewrite <- !app_assoc; reflexivity).
+  rewrite firstn_app_exact, skipn_app_exact.
+  assert (Ht : trim_right is_ws ((ds ++ [13]) ++ [10]) = ds).
+  { unfold trim_right. rewrite !rev_app_distr. simpl.
+    destruct (rev ds) as [|x rd] eqn:Er.
+    - apply (f_equal (@length Z)) in Er. rewrite rev_length in Er. simpl in Er. lia.
+    - assert (Hx : is_hex x = true).
+      { rewrite forallb_forall in Hall. apply Hall. apply in_rev. rewrite Er. left. reflexivity. }
+      destruct (is_hex_props x Hx) as [Hws _]. cbn [trim_left]. rewrite Hws.
+      rewrite <- Er, rev_involutive. reflexivity. }
+  rewrite Ht. unfold size_ok. rewrite Hall. unfold blen.
+  assert ((1 <=? Z.of_nat (length ds)) && (Z.of_nat (length ds) <=? 16) = true) as -> by lia.
+  simpl. rewrite Hval. reflexivity.
+Qed.
+
+Lemma ref_data_exact K (d rest : bytes) : 0 < blen d ->
+  ref_data K (blen d) (d ++ [13; 10] ++ rest) = prepend d (K rest).
+Proof.
+  intros Hd. unfold ref_data, blen in *. rewrite app_length.
+  assert (Z.of_nat (length d + length ([13; 10] ++ rest)) <? Z.of_nat (length d) = false) as -> by lia.
+  rewrite Nat2Z.id, firstn_app_exact, skipn_app_exact. simpl. reflexivity.
+Qed.
+
+Lemma ref_decode_encode : forall chunks fuel, Forall (fun d => blen d < 2 ^ 64) chunks ->
+  (length (flat_map encode_chunk chunks) < fuel)%nat ->
+  ref_decode fuel (encode_chunks chunks) = (concat chunks, true, []).
+Proof.
+  unfold encode_chunks. induction chunks as [|d cs IH]; intros fuel Hall Hf.
+  - destruct fuel; [simpl in Hf; lia|]. reflexivity.
+  - inversion Hall as [|? ? Hd Hcs]; subst. cbn [flat_map concat]. cbn [flat_map] in Hf.
+    destruct d as [|x d'] eqn:Ed.
+    + simpl. apply IH; [exact Hcs|exact Hf].
+    + rewrite <- Ed in *. assert (Hpos : 0 < blen d) by (rewrite Ed; unfold blen; simpl; lia).
+      assert (Henc : encode_chunk d = hex_of (blen d) ++ [13; 10] ++ d ++ [13; 10]) by (rewrite Ed; reflexivity).
+      rewrite Henc in *. destruct fuel as [|f]; [lia|]. cbn [ref_decode].
+      rewrite <- !app_assoc.
+      rewrite (parse_size_line_hex (blen d)) by lia.
+      assert (blen d =? 0 = false) as -> by lia.
+      rewrite ref_data_exact by exact Hpos.
+      rewrite IH; [reflexivity|exact Hcs|].
+      rewrite !app_length in Hf. simpl in Hf. lia.
+Qed.
+
+Theorem ref_roundtrip chunks : Forall (fun d => blen d < 2 ^ 64) chunks ->
+  ref_decode_all (encode_chunks chunks) = (concat chunks, true, []).
+Proof.
+  intros H. unfold ref_decode_all. apply ref_decode_encode; [exact H|].
+  unfold encode_chunks. rewrite app_length. simpl. lia.
+Qed.
+
+Theorem decode_encode_roundtrip chunks sizes : Forall (fun d => blen d < 2 ^ 64) chunks ->
+  decode_all sizes (encode_chunks chunks) = (concat chunks, 1, []).
+Proof.
+  intros H. pose proof (decode_all_exact sizes (encode_chunks chunks)) as A.
+  rewrite (ref_roundtrip chunks H) in A.
+  destruct (decode_all sizes (encode_chunks chunks)) as [[d e] r]. simpl in A.
+  destruct A as [-> [_ [He Hr]]]. rewrite (proj2 He eq_refl), (Hr eq_refl). reflexivity.
+Qed.
+
+(* ---------- the executable property holds of the model on every well-formed input ---------- *)
+Lemma as_LZ_vLZ l : as_LZ (vLZ l) = Some l.
+Proof. unfold as_LZ, vLZ. induction l as [|x l IH]; simpl; [reflexivity|]. rewrite map_map in *. simpl in *. rewrite IH. reflexivity. Qed.
+Lemma as_LB_vLB l : as_LB (vLB l) = Some l.
+Proof. unfold as_LB, vLB. induction l as [|x l IH]; simpl; [reflexivity|]. rewrite map_map in *. simpl in *. rewrite IH. reflexivity. Qed.
+
+Lemma prop_C23_decode wire sizes pieces :
+  let i := VL [VZ 1; VB wire; vLZ sizes; pieces] in prop_C23 i (run_C23 i) = true.
+Proof.
+  cbn zeta. unfold run_C23, prop_C23. rewrite as_LZ_vLZ.
+  pose proof (decode_all_exact sizes wire) as A.
+  destruct (ref_decode_all wire) as [[d ok] rest]. destruct (decode_all sizes wire) as [[d' e] rm].
+  simpl in A. destruct A as [<- [He0 [He1 Hr]]]. unfold dec_obs.
+  unfold bytes_eqb. rewrite list_Z_eqb_refl. cbn [andb].
+  assert (negb (e =? 0) = true) as -> by lia. cbn [andb].
+  destruct ok.
+  - rewrite (proj2 He1 eq_refl). rewrite (Hr eq_refl). simpl. apply Z.eqb_refl.
+  - destruct (e =? 1) eqn:E1; [apply Z.eqb_eq in E1; apply He1 in E1; discriminate|]. reflexivity.
+Qed.
+
+Lemma prop_C23_encode chunks : Forall (fun d => blen d < 2 ^ 64) chunks ->
+  let i := VL [VZ 2; vLB chunks] in prop_C23 i (run_C23 i) = true.
+Proof.
+  intros H. cbn zeta. unfold run_C23, prop_C23. rewrite as_LB_vLB.
+  rewrite (ref_roundtrip chunks H). unfold bytes_eqb. rewrite list_Z_eqb_refl. reflexivity.
+Qed.
+
+Lemma prop_C23_size line :
+  let i := VL [VZ 3; VB line] in prop_C23 i (run_C23 i) = true.
+Proof.
+  cbn zeta. unfold run_C23, prop_C23.
+  destruct (parse_hex_exact line) as [[Hp Hok]|[Hv [He Hok]]]; rewrite Hok.
+  - rewrite Hp. simpl. rewrite Z.eqb_refl. reflexivity.
+  - destruct (parse_hex line) as [v e]. simpl in *. destruct (e =? 0) eqn:E0; [lia|]. unfold VErr. rewrite E0. reflexivity.
+Qed.
+
+(* what was wrong before the fix, on the kept model of the old parseHexUint *)
+Lemma parse_hex_prefix_defects :
+  parse_hex_prefix [] 0 = (0, 0) /\
+  parse_hex_prefix [49;48;48;48;48;48;48;48;48;48;48;48;48;48;48;48;53] 0 = (5, 0) /\
+  size_ok [] = false /\ size_ok [49;48;48;48;48;48;48;48;48;48;48;48;48;48;48;48;53] = false.
+Proof. vm_compute. repeat split; reflexivity. Qed.
+
+Lemma roundtrip_example :
+  decode_all [2; 7] (encode_chunks [[104; 105]; []; [13; 10; 48; 13; 10]]) = ([104; 105; 13; 10; 48; 13; 10], 1, []).
+Proof. vm_compute. reflexivity. Qed.
